@@ -492,6 +492,38 @@ impl Actor for SessionReader {
     }
 }
 
+#[cfg(feature = "slawlor_ractor_verif")]
+pub(crate) mod verif {
+    //! verification-only entry points to the private framing functions
+    #![allow(missing_docs, missing_debug_implementations, unreachable_pub)]
+
+    /// The reader half the session reader actor owns, over an external transport
+    pub struct FrameReader(super::ActorReadHalf);
+
+    impl FrameReader {
+        pub fn new(reader: crate::net::BoxRead) -> Self {
+            Self(super::ActorReadHalf::External(reader))
+        }
+
+        /// `read_network_message` exactly as the session reader actor calls it
+        pub async fn read(
+            &mut self,
+            max_frame_size: u64,
+        ) -> tokio::io::Result<crate::protocol::NetworkMessage> {
+            super::read_network_message(&mut self.0, max_frame_size).await
+        }
+    }
+
+    /// `encode_network_message` exactly as the writer task calls it
+    pub fn encode(msg: &crate::protocol::NetworkMessage, buf: &mut Vec<u8>) {
+        super::encode_network_message(msg, buf)
+    }
+
+    pub fn checked_frame_length(length: u64, max_frame_size: u64) -> tokio::io::Result<usize> {
+        super::checked_frame_length(length, max_frame_size)
+    }
+}
+
 #[cfg(test)]
 mod tests {
     use std::io::Cursor;
